@@ -201,14 +201,15 @@ func c53Draw(rt *rapid.T) c53Case {
 	c.GasMode = rapid.SampledFrom([]string{"", "", "strict", "source"}).Draw(rt, "gasmode")
 	c.NVals = rapid.IntRange(0, 2).Draw(rt, "nvals")
 	c.Indent = rapid.Bool().Draw(rt, "indent")
+	// (rapid favours small values: the rarer classes sit at the upper end)
 	switch rapid.IntRange(0, 9).Draw(rt, "ih") {
-	case 0:
+	case 8:
 		c.DocIH = rapid.SampledFrom([]int64{1, 2, 57}).Draw(rt, "docih")
-	case 1:
+	case 9:
 		c.DocIH = rapid.SampledFrom([]int64{1, 2, 57}).Draw(rt, "docih")
 		c.AppIH = c.DocIH
 	}
-	switch rapid.IntRange(0, 11).Draw(rt, "invalid") {
+	switch 11 - rapid.IntRange(0, 11).Draw(rt, "invalid") {
 	case 0:
 		c.Invalid = "signerinfo-collision"
 		c.DocIH, c.AppIH = 0, 0
@@ -572,7 +573,7 @@ func c53Exec(ctx *vk.Ctx, c c53Case) error {
 	ctx.Note("txs_ok_fail", fmt.Sprintf("%d/%d", nOK, nFail))
 	if !ok {
 		ctx.Note("in_memory_refusal", m1.LoadErr+m1.InitErr)
-		ctx.Class("refusal: " + fmt.Sprintf("%.40s", m1.LoadErr+m1.InitErr))
+		ctx.Class("refusal: " + fmt.Sprintf("%.24s", m1.LoadErr+m1.InitErr))
 	}
 
 	if d := c53Compare(m1, st[0]); d != "" {
